@@ -317,6 +317,24 @@ var logMutators = []logMutator{
 		}
 		return []byte(out)
 	}},
+	{"invalid-line-of-multibyte-text", func(t *rapid.T, b []byte) []byte {
+		// a line cut in the middle of a long non-ASCII title, followed by more lines: many
+		// more bytes than characters (messages that quote the line count one or the other)
+		ls := splitKeep(b)
+		ids := taskIDsInLog(b)
+		id := "AAAAAA"
+		if len(ids) > 0 {
+			id = ids[0]
+		}
+		ch := oneOf(t, []string{"世", "é", "🚀", "क्ष"}, "mb.char")
+		bad := fmt.Sprintf(`{"type":"title","ts":"2026-01-01T00:00:00Z","data":{"id":"%s","title":"%s`, id, strings.Repeat(ch, between(t, 25, 90, "mb.n"))) + "\n"
+		at := 0
+		if len(ls) > 0 {
+			at = uni(t, len(ls), "mb.at")
+		}
+		out := append(append(append([]string{}, ls[:at]...), bad), ls[at:]...)
+		return []byte(strings.Join(out, ""))
+	}},
 	{"random-bytes", func(t *rapid.T, b []byte) []byte {
 		return rapid.SliceOfN(rapid.Byte(), 1, 300).Draw(t, "bytes")
 	}},
